@@ -215,6 +215,61 @@ def _known_functions() -> frozenset:
 KNOWN_FUNCTIONS = _known_functions()
 
 
+def _known_signatures() -> dict:
+    import json
+    import pathlib
+
+    p = pathlib.Path(__file__).with_name("known_signatures.json")
+    try:
+        return json.loads(p.read_text())
+    except Exception:  # noqa: BLE001
+        return {}
+
+
+KNOWN_SIGNATURES = _known_signatures()
+
+
+def new_defaulted_params(model: Model, fn: FunctionInfo) -> dict:
+    """Parameters of ``fn`` that the pinned tree did not have, that carry a constant default and that no call in
+    the package passes: {name: default value}.  The property speaks about the API as pinned - the function is read
+    with these defaults in place (the other values of a new optional keyword are new surface outside it)."""
+    sig = KNOWN_SIGNATURES.get(fn.qualname)
+    if sig is None:
+        return {}
+    memo = model.__dict__.setdefault("_memo_newparams", {})
+    if fn.qualname in memo:
+        return memo[fn.qualname]
+    out = {}
+    cands = [p for p in fn.params if p.name not in sig and isinstance(p.default, ast.Constant)]
+    if cands:
+        memo[fn.qualname] = {}  # recursion guard
+        passed = set()
+        for g in model.functions.values():
+            for n in ast.walk(g.node):
+                if isinstance(n, ast.Call):
+                    f = n.func
+                    cname = f.id if isinstance(f, ast.Name) else f.attr if isinstance(f, ast.Attribute) else None
+                    if cname == fn.name or (cname in ("partial",) and n.args and ast.unparse(n.args[0]).endswith(fn.name)):
+                        for k in n.keywords:
+                            if k.arg is None:
+                                passed.add("**")
+                                continue
+                            # handing on the caller's OWN new keyword of the same default keeps the default in place
+                            dflt = next((p.default.value for p in cands if p.name == k.arg), None)
+                            if isinstance(k.value, ast.Name) and g is not fn:
+                                theirs = new_defaulted_params(model, g)
+                                if k.value.id in theirs and theirs[k.value.id] == dflt:
+                                    continue
+                            if isinstance(k.value, ast.Constant) and k.value.value == dflt and type(k.value.value) is type(dflt):
+                                continue
+                            passed.add(k.arg)
+        for p in cands:
+            if p.name not in passed and "**" not in passed:
+                out[p.name] = p.default.value
+    memo[fn.qualname] = out
+    return out
+
+
 class Summariser:
     """Builds and caches path summaries.
 
@@ -461,6 +516,8 @@ class _Builder:
         env: dict = {}
         for p in self.fn.params:
             env[p.name] = ("param", p.name)
+        for name, val in new_defaulted_params(self.model, self.fn).items():
+            env[name] = ("const", val)
         start = Path([], env, None)
         body = list(self.fn.node.body)
         if body and isinstance(body[0], ast.Expr) and isinstance(body[0].value, ast.Constant) and isinstance(body[0].value.value, str):
@@ -1577,9 +1634,18 @@ class _Builder:
         loop_id = self.low.fresh()
         assigned = self._assigned_names(st.body, p.env)
         box = {}
+        # for i, x in enumerate(xs[, start]):  is the loop over xs with a running counter on the side
+        counted = None
+        if op(it) == "call" and it[1] == ("builtin", "enumerate") and it[2] and isinstance(st.target, (ast.Tuple, ast.List)) and len(st.target.elts) == 2 and isinstance(st.target.elts[0], ast.Name):
+            counted = st.target.elts[0].id
+            it = it[2][0]
 
         def run(env):
-            box["tgt"] = self.low.bind_target(st.target, env, None)
+            if counted is not None:
+                env[counted] = ("count", loop_id)
+                box["tgt"] = self.low.bind_target(st.target.elts[1], env, None)
+            else:
+                box["tgt"] = self.low.bind_target(st.target, env, None)
             return self.block(st.body, [Path([], env, None)], True)
 
         body_paths, inv = self._loop_body(p, assigned, loop_id, run)
